@@ -16,7 +16,16 @@
 open Respmodel
 open Resputil
 
-let hexb (l : byte list) : string = hex (string_of_bytes l)
+(* byte strings longer than 256 bytes are rendered as  #<length>:<FNV-1a 64 of the bytes>  (the
+   length-boundary cases carry arguments of up to MiBs); harness_resp renders them the same way *)
+let digest (s : string) : string =
+  let h = ref 0xcbf29ce484222325L in
+  String.iter (fun c -> h := Int64.mul (Int64.logxor !h (Int64.of_int (Char.code c))) 0x100000001b3L) s;
+  Printf.sprintf "#%d:%016Lx" (String.length s) !h
+
+let hexb (l : byte list) : string =
+  let s = string_of_bytes l in
+  if String.length s > 256 then digest s else hex s
 
 let rec reply_text (r : reply) : string =
   match r with
